@@ -80,6 +80,8 @@ def run(ctx):
               "MeshRestoredEqualsRecomputed"),
              ("Persist[mutant: browsing keeps the disorder parameter of the step loaded first, BrowsedStepIsRecordedStep]",
               ps.model_cfg(["solution"], 1, 1, 0, dict(ps.MECH, MBrowseRereads=False), ["BrowsedStepIsRecordedStep"]), "BrowsedStepIsRecordedStep"),
+             ("Persist[mutant: a view derived from an earlier step (vorticity, current densities) survives solve_step = k, BrowsedViewsBelongToStep]",
+              ps.model_cfg(["solution"], 1, 1, 0, dict(ps.MECH, MBrowseResetsViews=False), ["BrowsedViewsBelongToStep"]), "BrowsedViewsBelongToStep"),
              ("Persist[mutant: reader memoises what it loaded by path, LoadSaveIdentity]",
               ps.model_cfg(["device", "mesh", "solution"], 1, 1, 0, dict(ps.MECH, MMemoByPath=True), ["LoadSaveIdentity"]), "LoadSaveIdentity"),
              ("Persist[mutant: polygon points not stored as held, FileHoldsContent]",
